@@ -20,7 +20,7 @@ class C03(object):
     assumptions = ['a ConvergenceError on either side makes the pair inconclusive (reduction legitimately changes '
                    'conditioning); any other exception on exactly one side is a violation',
                    'cyclic class: agreement bound 1e-8*max(1,|v|) with both runs at tolerance 1e-13']
-    required_counters = ('pairs.compared', 'values.compared', 'alias.pairs', 'ic_on_alias.pairs', 'model_text.pairs')
+    required_counters = ('pairs.compared', 'values.compared', 'alias.pairs', 'ic_on_alias.pairs', 'model_text.pairs', 'after_earlier_parse.pairs')
 
     def n_cases(self, tier):
         return 300 if tier == 'quick' else 30000
@@ -45,14 +45,24 @@ class C03(object):
             # alias of the (default or user) time axis
             nm = G.fresh_names(rng, 1, avoid=G.all_value_names(spec) + [d['name'] for d in spec['decos']])[0]
             spec['aliases'].append({'name': nm, 'target': 't'})
-        return {'kind': 'pair', 'spec': spec, 'text': G.render(spec), 'cyclic': cyclic}
+        case = {'kind': 'pair', 'spec': spec, 'text': G.render(spec), 'cyclic': cyclic, 'first': None}
+        if rng.random() < 0.3:
+            # the solvers have already read something else (or the same text) before they are given the system
+            if rng.random() < 0.5:
+                case['first'] = case['text']
+            else:
+                other = G.gen_affine(rng, n_simul=rng.randint(1, 3), rho=0.3, maxtime=2, tol=1e-9)
+                case['first'] = G.render(other)
+        return case
 
-    def solve(self, text, reduction):
+    def solve(self, text, reduction, first=None):
         from sfc_models.equation_solver import EquationSolver, ConvergenceError
         s = EquationSolver(run_equation_reduction=reduction)
         s.MaxIterations = 5000
         try:
             with contextlib.redirect_stdout(io.StringIO()):
+                if first is not None:
+                    s.ParseString(first)
                 s.ParseString(text)
                 s.SolveEquation()
         except ConvergenceError as e:
@@ -125,8 +135,10 @@ class C03(object):
             return self.run_model_text(case)
         rec = monitors.Recorder()
         spec = case['spec']
-        oa, a = self.solve(case['text'], False)
-        ob, b = self.solve(case['text'], True)
+        oa, a = self.solve(case['text'], False, case.get('first'))
+        ob, b = self.solve(case['text'], True, case.get('first'))
+        if case.get('first') is not None:
+            rec.count('after_earlier_parse.pairs')
         shape = ('cyclic' if case['cyclic'] else 'acyclic') + ('|alias' if spec['aliases'] else '') + \
                 ('|deco' if spec['decos'] else '') + ('|ic' if spec['ics'] else '')
         if oa != 'ok' or ob != 'ok':
